@@ -35,6 +35,7 @@ type frame struct {
 	parent     *frame
 	depth      int
 	loopOrd    int
+	rangeSeen  map[string]int // loops over the same ranged expression seen so far (loopname expr#k)
 	contract   *Contract
 	deferGuard map[*ast.DeferStmt]string
 	concrete   map[types.Object]types.Type // interface parameters known to hold a concrete type (inlined calls)
@@ -79,8 +80,9 @@ type Lowerer struct {
 	assumed          map[string]bool
 	afterCall        []func()
 	acqPoints        []acqPoint
-	lastResults      []*Term        // results of the call whose call-site effects are being applied
+	lastResults      []*Term // results of the call whose call-site effects are being applied
 	lastResultTypes  []types.Type
+	rangeStack       []*ast.RangeStmt // enclosing range statements
 	pendingRangeKey  string         // source text of the expression ranged over by the loop being opened
 	nilMapFact       map[string]int // block:var -> statement count when the nil-map fact was last stated
 	itPoints         []acqPoint
